@@ -876,6 +876,127 @@ func connectCtxCase(w *mon.Worker, idx int) {
 
 const pingEvery = 3 * time.Second
 
+// quietCase: a healthy session on which nothing but the client's pings and the server's pongs
+// travels for more than 11 s; then the server sends packets (10.5..13 s into the session) and the
+// client sends one. Every one of them must arrive: a server that answers every ping has given the
+// client no reason to drop the session, and what is written around such a moment would be lost.
+// The number of handshakes the reference server saw is reported with the verdict.
+func quietCase(w *mon.Worker, idx int) {
+	rng := w.Rng("quiet", idx)
+	id := adnl.NewIdentity(rng.Bytes(32))
+	ip := caseIP()
+	ns, _ := nonceSource(rng.Fork("nonce", 0))
+	srv, ss, err := startServer(ip, id, ns, nil, true, false)
+	if err != nil {
+		w.HarnessError("listen: " + err.Error())
+		return
+	}
+	defer srv.Close()
+	pr := startProbe()
+	defer pr.Stop()
+	wit := map[string]any{"case": idx, "section": "quiet-session", "server_seed": mon.Hex(id.Seed[:])}
+	conn, err, pn := dial(id.Pub[:], srv.Addr())
+	if pn != nil || err != nil {
+		if pn == nil && pr.Max() > 500*time.Millisecond {
+			w.Inconclusive("handshake failed on a stalled machine")
+			return
+		}
+		wit["error"] = fmt.Sprint(err, pn)
+		w.Violation("handshake-failed@clean-stream", wit)
+		return
+	}
+	t0 := time.Now()
+	col := collect(conn)
+	var peer *adnl.Peer
+	for i := 0; i < 200 && peer == nil; i++ {
+		ss.mu.Lock()
+		peer = ss.peer
+		ss.mu.Unlock()
+		if peer == nil {
+			time.Sleep(5 * time.Millisecond)
+		}
+	}
+	if peer == nil {
+		w.HarnessError("reference server reported no session although the client's handshake completed")
+		return
+	}
+	// one packet each way at the start (the session works), then silence
+	first := payload(rng, rng.Range(1, 100))
+	s2c := [][]byte{first}
+	peer.Send(ns(), first)
+	var c2s [][]byte
+	send := func(pl []byte) error {
+		pk, e := liteclient.NewPacket(pl)
+		if e == nil {
+			e = conn.Send(pk)
+		}
+		c2s = append(c2s, pl)
+		return e
+	}
+	sendErr := send(payload(rng, rng.Range(1, 100)))
+	// server packets at 10.5 .. 13 s
+	at := []time.Duration{10500 * time.Millisecond}
+	for len(at) < 6 {
+		at = append(at, at[len(at)-1]+time.Duration(rng.Range(100, 600))*time.Millisecond)
+	}
+	var writeErr error
+	for _, d := range at {
+		time.Sleep(time.Until(t0.Add(d)))
+		pl := payload(rng, pickSize(rng, false))
+		s2c = append(s2c, pl)
+		if e := peer.Send(ns(), pl); e != nil && writeErr == nil {
+			writeErr = e
+		}
+	}
+	if sendErr == nil {
+		sendErr = send(payload(rng, rng.Range(1, 100)))
+	}
+	okC, okS := col.waitCount(len(s2c), 5*time.Second), ss.waitRecv(len(c2s), 5*time.Second)
+	ss.mu.Lock()
+	recv, rerr, pings, sessions := ss.recv, ss.recvErr, ss.pings, ss.sessions
+	ss.mu.Unlock()
+	got := col.snapshot()
+	wit["handshakes_seen_by_the_server"], wit["pings_answered"], wit["server_packets_written_at_ms"] = sessions, pings, at
+	wit["delivered_to_client"], wit["sent_by_server"], wit["received_by_server"], wit["sent_by_client"] = len(got), len(s2c), len(recv), len(c2s)
+	w.Eval(fmt.Sprintf("quiet/%d/%d/%d", idx, len(s2c), len(c2s)))
+	for i := 0; i < len(got) && i < len(s2c); i++ {
+		if !bytes.Equal(got[i], s2c[i]) {
+			wit["index"] = i
+			w.Violation("payload-mismatch@server->client/after-a-quiet-spell", wit)
+			return
+		}
+	}
+	for i := 0; i < len(recv) && i < len(c2s); i++ {
+		if !bytes.Equal(recv[i], c2s[i]) {
+			wit["index"] = i
+			w.Violation("payload-mismatch@client->server/after-a-quiet-spell", wit)
+			return
+		}
+	}
+	if len(got) > len(s2c) || len(recv) > len(c2s) {
+		w.Violation("surplus-packet@after-a-quiet-spell", wit)
+		return
+	}
+	if !okC || !okS || sendErr != nil || writeErr != nil || (rerr != nil && rerr != io.EOF) {
+		// the client's 10 s silence timer is real time: on a machine that stood still, pongs may truly have been late
+		if pr.Max() > 500*time.Millisecond || pings < 3 {
+			w.Inconclusive("quiet-session case on a stalled machine")
+			return
+		}
+		wit["send_error"], wit["server_write_error"], wit["reference_error"] = fmt.Sprint(sendErr), fmt.Sprint(writeErr), fmt.Sprint(rerr)
+		dir := "server->client"
+		if okC && writeErr == nil {
+			dir = "client->server"
+		}
+		w.Violation("not-delivered@healthy-session/ping-pong-only-for-10s/"+dir, wit)
+		return
+	}
+	w.Count("quiet_session_cases", 1)
+	w.Count("quiet_session_pings_answered", int64(pings))
+	w.Seen("quiet_session_handshakes_seen_by_the_server", fmt.Sprint(sessions))
+	close(ss.release)
+}
+
 // concurrentCase: several goroutines send on one connection at the same time. The stream cipher
 // state carries across packets, so the frames must reach the socket in the order in which they
 // took key stream: the reference peer must read every frame as valid and receive exactly the
@@ -1818,6 +1939,7 @@ func workers() map[string]func(*mon.Worker) {
 		"parse":      func(w *mon.Worker) { runSpan(w, func(i int) { parseCase(w, i) }) },
 		"parsebig":   func(w *mon.Worker) { runSpan(w, func(i int) { parseBigCase(w, i) }) },
 		"connectctx": func(w *mon.Worker) { runSpan(w, func(i int) { connectCtxCase(w, i) }) },
+		"quiet":      func(w *mon.Worker) { runSpan(w, func(i int) { quietCase(w, i) }) },
 	}
 }
 
@@ -1903,7 +2025,7 @@ func main() {
 		"faulty runs: exactly one fault (bit flip, byte substitution, truncation, duplication, deletion) at a chosen offset of the server->client stream (handshake confirmation, or length/nonce/payload/checksum of the k-th frame) or of the client's handshake; the sequence delivered on Responses() must be exactly the frames before the first touched one, each equal to what was sent (one evaluation per faulty run, distinct = distinct (kind, region, frame, offset)); " +
 		"ParsePacket: streams of three reference-encrypted frames with every single-bit flip, one substitution per byte, every truncation, and awkward readers (one evaluation per mutated stream); " +
 		"large frames: one faulty run in twelve aims its fault at a frame of 100 KiB..8 MiB-64, and ParsePacket streams holding frames above 64 KiB and above 1 MiB get sampled bit flips in every region; " +
-		"payloads that begin with the constructor id of tcp.ping / tcp.pong / tcp.authentificationNonce without being such a message travel like any other payload; every sixth concurrent-senders case keeps sending without a pause for 6.5 s so that the client's own pings fall into the middle of the senders' frames; connections made with a connect context of 0.6..1.5 s carry packets both ways before that deadline, after it (context left alone, cancelled at once, or cancelled later) and after the client's first own ping"
+		"payloads that begin with the constructor id of tcp.ping / tcp.pong / tcp.authentificationNonce without being such a message travel like any other payload; every sixth concurrent-senders case keeps sending without a pause for 6.5 s so that the client's own pings fall into the middle of the senders' frames; connections made with a connect context of 0.6..1.5 s carry packets both ways before that deadline, after it (context left alone, cancelled at once, or cancelled later) and after the client's first own ping; a session that carries nothing but the client's pings and the server's pongs for more than 10 s still delivers what the server writes at 10.5..13 s and what the client sends then"
 	R.Assume("reference peer harness/ref/adnl implements ADNL-over-TCP as described at the top of ref/adnl/adnl.go; pinned only by its self-check (RFC 7748 base point, DH symmetry, client half vs server half) and by interoperating with tongo")
 	R.Assume("an accepted corrupted frame by hash collision (2^-256) is ignored; over-limit frames (> 8 MiB) may be refused or delivered intact")
 	if err := adnl.SelfCheck(); err != nil {
@@ -1927,6 +2049,7 @@ func main() {
 			jobs = append(jobs, mon.Job{Name: name, Input: span{a, b}})
 		}
 	}
+	split("quiet", R.N(1, 3), 1) // the long one (about 14 s) goes first
 	split("limit", R.N(1, 4), 1)
 	split("over", R.N(1, 3), 1)
 	split("clean", R.N(20, 300), R.N(3, 12))
